@@ -1,12 +1,13 @@
 #!/usr/bin/env python3
 """Prints the markdown table of seeded changes (from seeded/*/meta.json): tools_seed_table.py [r2]"""
 import json, glob, os, sys
-want_r2 = len(sys.argv) > 1 and sys.argv[1] == 'r2'
+rnd = sys.argv[1] if len(sys.argv) > 1 else 'r1'
 print('| seed | breaks | needs (short) | caught by | by its own check |')
 print('|---|---|---|---|---|')
 for d in sorted(glob.glob('/verif/seeded/*/')):
     n = os.path.basename(d.rstrip('/'))
-    if ('-r2' in n) != want_r2:
+    tag = 'r3' if '-r3' in n else ('r2' if '-r2' in n else 'r1')
+    if tag != rnd:
         continue
     m = json.load(open(d + 'meta.json'))
     p = m['breaks_property']
